@@ -4,6 +4,7 @@
 import concurrent.futures
 import json
 import os
+import random
 import shutil
 import subprocess
 import sys
@@ -21,7 +22,7 @@ RULE = ("(a) the C07 group-wise stream (16 helpers x float/int/bool/date x argum
         "with the Python path on identical input. non-trivial = case with >=2 groups (a) / history of >=2 distinct kernels (b); "
         "quick: ~350 in-process cases + 24 histories; thorough: 6000 cases + all ordered pairs of 14 helpers on 3 dtypes")
 
-HIST_HELPERS = ["max", "min", "mean", "sum", "median", "count", "count_unique", "first", "last", "nth", "mode", "std", "all", "quantile"]
+HIST_HELPERS = ["max", "min", "mean", "sum", "median", "count", "count_unique", "first", "last", "nth", "mode", "std", "var", "all", "any", "quantile"]
 ORDER_SENSITIVE = ("first", "last", "nth", "mode")
 
 
@@ -81,18 +82,33 @@ def gen_cases(ctx):
         [{"helper": "nth", "kind": "floatna", "args": {"index": -3, "drop_na": True}}],
     ]
     hists = list(corpus)
+    # every helper as the FIRST kernel compiled in a fresh process, followed by the four kernels that return
+    # elements of the column (the ones a mis-typed earlier kernel can disturb): all 16 priors, every tier
+    for kind in (("float",) if ctx.tier == "quick" else ("float", "int", "date", "bool")):
+        for prior in HIST_HELPERS:
+            if kind in ("date",) and prior in ("mean", "sum", "median", "std", "var", "all", "any", "quantile"):
+                continue
+            steps = [with_args(random.Random(0), prior, kind)]
+            for later in ORDER_SENSITIVE:
+                if later != prior:
+                    st = {"helper": later, "kind": kind, "args": {}}
+                    if later == "nth":
+                        st["args"]["index"] = 1
+                    steps.append(st)
+            hists.append(steps)
     kinds = ["float", "int", "date", "bool", "floatna"]
     if ctx.tier == "quick":
-        while len(hists) < 24:
+        target = len(hists) + 17
+        while len(hists) < target:
             k = rng.choice([2, 2, 3])
             kind = rng.choice(kinds)
             hs = [rng.choice(HIST_HELPERS) for _ in range(k)]
             if kind in ("date",):
-                hs = [h if h not in ("mean", "sum", "median", "std", "all", "quantile") else "max" for h in hs]
+                hs = [h if h not in ("mean", "sum", "median", "std", "var", "all", "any", "quantile") else "max" for h in hs]
             hists.append([with_args(rng, h, kind) for h in hs])
     else:
         for kind in ("float", "int", "date"):
-            hh = [h for h in HIST_HELPERS if not (kind == "date" and h in ("mean", "sum", "median", "std", "all", "quantile"))]
+            hh = [h for h in HIST_HELPERS if not (kind == "date" and h in ("mean", "sum", "median", "std", "var", "all", "any", "quantile"))]
             for a in hh:
                 for b in hh:
                     if a != b:
@@ -108,7 +124,7 @@ def with_args(rng, h, kind):
         st["args"]["index"] = rng.choice([1, -1, -3, 2])
     if h == "quantile":
         st["args"]["q"] = rng.choice(["1/4", "1/2", "9/10"])
-    if h == "std":
+    if h in ("std", "var"):
         st["args"]["ddof"] = 0
     if h in ("first", "last", "nth", "mode", "count", "count_unique") and rng.random() < 0.3:
         st["args"]["drop_na"] = rng.choice([True, False])
@@ -254,7 +270,11 @@ def judge(ctx, case, obs, mouts):
             if isinstance(m, dict) and "err" in m:
                 ctx.violation("correspondence", "numba-model-error", f"model rejected the request: {m['err']}", case, obs, m)
             elif "err" not in nb and not unspecified:
-                if len(m) != len(nb["out"]) or not all(C07.agrees(g, C07.model_to_exp(x)) for g, x in zip(nb["out"], m)):
+                gs2 = C07.groups_of(case)[1]
+                # n - ddof = 0 is a division by zero: no value to compare (see C07)
+                deg = [case["helper"] in ("std", "var") and C07.reference(case["helper"], case["args"], case["kind"], g) is None for g in gs2] \
+                    if len(gs2) == len(m) else [False] * len(m)
+                if len(m) != len(nb["out"]) or not all(d or C07.agrees(g, C07.model_to_exp(x)) for g, x, d in zip(nb["out"], m, deg)):
                     ctx.violation("correspondence", f"numba-kernel:{case['helper']}:differs", "Numba kernel model and Numba implementation disagree", case, obs, m)
         ctx.case_done(case, len(set(case["g"])) >= 2)
         return
